@@ -199,6 +199,11 @@ pub fn config_for(kind: Kind, g: u32) -> Vec<u8> {
             for i in 0..len {
                 c[2 + i] = b'a' + b as u8;
             }
+            // Some tags end in a NUL byte (a host padding a fixed-size field): the tag is what
+            // the length field says, padding included.
+            if b % 3 == 2 {
+                c[2 + len - 1] = 0;
+            }
             c
         }
         _ => kind.default_config(),
